@@ -99,7 +99,6 @@ Definition sched_invariant_settle_stmt : Prop := forall B wire s1 s2 p1 d1 u1 o1
 
 Hypothesis HS1 : S1_stmt norm.
 Hypothesis HS2 : S2_stmt norm.
-Hypothesis HS4 : S4_stmt norm.
 Hypothesis HA : A_ne_stmt.
 Hypothesis HDT : drive_total_stmt norm maxc.
 Hypothesis HPT : parse_total_stmt norm maxc.
@@ -1473,4 +1472,68 @@ Proof.
   rewrite <- Eh. reflexivity.
 Qed.
 
+(* ---- item 4: the environment log, looked up (HashMap semantics: the last insertion wins) ---- *)
+Lemma find_app' {A} (f : A -> bool) a b :
+  find f (a ++ b) = match find f a with Some x => Some x | None => find f b end.
+Proof. induction a as [|x a IH]; [reflexivity|]. cbn [app find]. destruct (f x); [reflexivity|exact IH]. Qed.
+
+Lemma find_map' {A B} (f : B -> bool) (g : A -> B) l :
+  find f (map g l) = option_map g (find (fun x => f (g x)) l).
+Proof. induction l as [|x l IH]; [reflexivity|]. cbn [map find]. destruct (f (g x)); [reflexivity|exact IH]. Qed.
+
+Lemma env_lookup_rev k log :
+  env_lookup k log = option_map snd (find (fun e => beq k (fst e)) (rev log)).
+Proof.
+  induction log as [|[k' v] t IH]; [reflexivity|]. cbn [env_lookup rev]. rewrite find_app', IH.
+  destruct (find (fun e => beq k (fst e)) (rev t)) as [e|]; [reflexivity|]. cbn [option_map find fst].
+  destruct (beq k k'); reflexivity.
+Qed.
+
+Lemma env_lookup_last k pairs :
+  env_lookup (norm k) (env_log norm pairs) =
+    option_map snd (find (fun p => beq (norm k) (norm (fst p))) (rev pairs)).
+Proof.
+  rewrite env_lookup_rev. unfold env_log. rewrite <- map_rev, find_map'. cbn [fst].
+  destruct (find (fun x => beq (norm k) (norm (fst x))) (rev pairs)) as [p|]; reflexivity.
+Qed.
+
+Lemma env_lookup_none k pairs :
+  env_lookup (norm k) (env_log norm pairs) = None <-> (forall p, In p pairs -> norm (fst p) <> norm k).
+Proof.
+  rewrite env_lookup_last. split.
+  - intros H p Hin E.
+    destruct (find (fun p => beq (norm k) (norm (fst p))) (rev pairs)) as [q|] eqn:Ef; [discriminate|].
+    pose proof (find_none _ _ Ef p ltac:(apply in_rev; rewrite rev_involutive; exact Hin)) as Hn.
+    cbv beta in Hn. rewrite E in Hn. assert (beq (norm k) (norm k) = true) by (apply beq_eq; reflexivity). congruence.
+  - intros H. destruct (find (fun p => beq (norm k) (norm (fst p))) (rev pairs)) as [q|] eqn:Ef; [|reflexivity].
+    apply find_some in Ef as [Hin Hb]. apply beq_eq in Hb. exfalso. apply (H q); [apply in_rev; exact Hin|congruence].
+Qed.
+
 End Records.
+
+(* rec_step_stmt is false as stated: an empty, unpadded GetValues record leaves the parser in the
+   unsettled state HeaderValues 0 0 0 (= Header up to [settle]) *)
+Lemma rec_step_stmt_counterexample : ~ rec_step_stmt (fun b => b) 5.
+Proof.
+  intros H. specialize (H Header (mkRcd RT_GetValues 0 [] []) Idle I I eq_refl).
+  assert (Hr : rcd_ok (mkRcd RT_GetValues 0 [] [])).
+  { unfold rcd_ok, RT_GetValues. cbn [rt rid rbody rpad]. repeat split; try (vm_compute; reflexivity); constructor. }
+  specialize (H Hr ltac:(vm_compute; reflexivity)). vm_compute in H. destruct H as [H _]. discriminate H.
+Qed.
+
+Check rec_step_settle.
+Check rec_step_ok_but_gv_empty.
+Check run_drive.
+Check run_drive_done.
+Check run_prefix.
+Check preamble_exact.
+Check env_lookup_last.
+Print Assumptions rec_step_settle.
+Print Assumptions rec_step_ok_but_gv_empty.
+Print Assumptions run_drive.
+Print Assumptions run_drive_done.
+Print Assumptions run_prefix.
+Print Assumptions preamble_exact.
+Print Assumptions env_lookup_last.
+Print Assumptions env_lookup_none.
+Print Assumptions rec_step_stmt_counterexample.
